@@ -163,7 +163,8 @@ void h_fe_lock_unlock(void) {
 int myth_felockattr_init(myth_felockattr_t * attr) { return myth_felockattr_init_body(attr); }
 void h_fe_init(void) {
   __CPROVER_havoc_object(&FE);
-  myth_felock_init_body(&FE, 0);
+  myth_felockattr_t fat_; _Bool with_fattr = nondet_bool();
+  myth_felock_init_body(&FE, with_fattr ? &fat_ : 0);
   __CPROVER_assert(FE.status == 0 && FE.mutex->state == 0, "felock_init: empty (status 0), unlocked");
   __CPROVER_assert(FE.cond[0].sleep_q->head == 0 && FE.cond[1].sleep_q->head == 0 && FE.mutex->sleep_q->head == 0, "felock_init: no sleepers");
   VERIF_CANARY();
